@@ -204,6 +204,16 @@ def walk_exec(chk, repo):
     grid += [(s0, False, 8, delay, (), zc, (arr,))
              for s0 in (1, 2) for delay in (0, 1) for zc in (False, True)
              for arr in (2, 4, 8) if arr > s0]
+    if chk.tier == "thorough":
+        # the whole product of the model's parameters
+        import itertools
+        grid = [g for g in itertools.product(
+            (1, 2, 4, 8), (False, True), (2, 4, 8), (0, 1, 2, 3, 7),
+            ((), (2,), (4,), (8,)), (False, True), ((), (2,), (4,), (8,)))
+            if not (g[4] and g[6] and g[4] == g[6])
+            and not (g[5] and not (g[1] or g[4] or g[6]))] + [
+            (1, False, 8, 1500, (), False, ()),
+            (2, True, 4, 1500, (), False, ())]
     if True:
         if True:
             if True:
